@@ -141,6 +141,17 @@ CLAIMED["C10"] = (
     "Backend keys and identity keys) and compared with the model inside Coq; declared vs computed shapes compared inside Coq. "
     "Scheduler x worker-count x chunking matrix with a 1e-6 switch interval: oracle.",
     "Coq invariant proofs over schedules + deterministic schedule replay correspondence")
+CLAIMED["C19"] = (
+    "Theorems (Coq): deep embedding of pipeline expressions (providers/converters, @, + - * /, reflected forms, negation, "
+    "comparisons, constants); for EVERY expression of any depth, any leaves and any scale the implementation's operator dispatch "
+    "(reflected operators taken from generated anchors) computes the mathematical meaning (mutual structural induction over an "
+    "abstract commutative ring); composition is nested application and associative; _get_radius_px and the Gaussian provider's "
+    "centre/sigma are invariant when parameters and scale are multiplied by the same factor; centre = (shape_px-1)/2 + shift/scale. "
+    "Tie: operator/compose/curry anchors + translated radius and Gaussian expressions; random expression trees built with the real "
+    "operators over exact 4-voxel images evaluated by the implementation and by the Coq model (exact equality); radius and Gaussian "
+    "peak location compared inside Coq. Morphology extensivity, [0,1] ranges, rescaling providers, curry adapters, loader glue, "
+    "scale covariance of the scipy-backed converters: oracle.",
+    "deep embedding + mutual induction in Coq + in-Coq expression correspondence")
 NOT_YET = "machinery for this property is not built yet in this revision (see DESIGN.md §6 for the planned model)"
 
 def main():
